@@ -286,6 +286,9 @@ type judge struct {
 	newID map[c06.Slot]string // identity of the generation the operation was writing, per slot
 	// destroyed: identities whose destruction was requested and may therefore be gone
 	gone map[c06.Slot]map[int]bool
+	// sameHandleLostClass: class of "a key is no longer readable THROUGH THE SAME HANDLE" when the fault hit the
+	// re-read of a cached list of historical key files (known finding); "" otherwise
+	sameHandleLostClass string
 }
 
 func (j *judge) where() string { return fmt.Sprintf("fault %s@%d in %s", j.sc.Mode, j.sc.K, j.sc.Op) }
@@ -325,6 +328,9 @@ func (j *judge) clauses(pre, post snap, slots []c06.Slot, view string) {
 			class := "lost-keys:" + f
 			if sc.Format == c06.V1 && op.Kind == "dc" && s == op.Slot {
 				class = "destroy-current-no-promotion:v1" // C06 known finding: read-all fails without a current file
+			}
+			if j.sameHandleLostClass != "" && strings.HasPrefix(view, "same handle") && s == op.Slot {
+				class = j.sameHandleLostClass
 			}
 			j.fails(class, "after %s key %d of %v is no longer readable (%s; before %v, after %v err=%v)", j.where(), id, s, view, pre.all[s], post.all[s], post.allE[s])
 			break
@@ -509,6 +515,9 @@ func RunScenario(sc Scenario) Result {
 	})
 	in.Disarm()
 	res.Calls = in.Calls
+	if sc.Format == c06.V1 && sc.Cache != -1 && sc.Mode == ModeErr && strings.HasPrefix(in.FiredCall, "ReadDir:") {
+		j.sameHandleLostClass = "v1:stale-history-cache-after-refresh-error"
+	}
 	if op.Kind == "h" {
 		allowedCur[preRing.Current] = true
 		setCurrent(op.Hop, res.Outcome, in.FiredCall, true)
